@@ -693,10 +693,32 @@ def run_c07(seed, tier, log):
         for s_ in shards:
             os.remove(s_)
         os.remove(rpath)
+    # slow motion: the same configuration with and without a mutator that mutates nothing, draws nothing and sleeps 2 ms per
+    # opcode (1 500 opcodes = 3 s of wall clock instead of milliseconds): the bytes must be the same - nothing may depend on
+    # elapsed time or deadlines
+    slow, specs2 = [], dict(main['specs'])
+    for v, src in ((3, 'seed:7'), (5, 'bytes:' + bytes(range(1, 200)).hex()), (0, 'seed:11'), (4, 'seed:123456')):
+        for tag, muts in (('fast', ['boundary']), ('slow', ['boundary', 'sleep:2'])):
+            slow.append(spec('slow%d%s' % (v, tag), v, 1500, 1500, RATES['0.1'], 0, 0, 0, muts, src))
+    cpath = os.path.join(d, 'slow.txt')
+    open(cpath, 'w').write('\n'.join(slow) + '\n')
+    rpath = os.path.join(d, 'slow_results.txt')
+    with open(rpath, 'w') as f:
+        p = subprocess.run([HBIN, 'results', cpath, '8'], stdout=f, stderr=subprocess.PIPE, env=ENV, timeout=3000, text=True)
+    if p.returncode != 0:
+        raise Infra('harness results (slow motion) failed: %s' % p.stderr[-2000:])
+    hs = result_hashes(rpath)
+    for c in slow:
+        specs2[re.search(r'\bid=(\S+)', c).group(1)] = c
+    for v in (3, 5, 0, 4):
+        nruns += 1
+        if hs.get('slow%dfast' % v) != hs.get('slow%dslow' % v) or hs.get('slow%dfast' % v) is None:
+            props.append({'id': 'slow%dslow' % v, 'prop': 'C07', 'detail': 'output differs when every opcode takes 2 ms longer (a no-op mutator that sleeps): the result depends on elapsed time'})
+    os.remove(rpath)
     res = dict(ok=[], diffs=[], props=props, stats={}, ncases=nruns, okn=nruns - len([p for p in props if p['prop'] == 'C07']), nops=nruns,
-               specs=main['specs'], samples=cases[:2], runs=list(orders))
+               specs=specs2, samples=cases[:2], runs=list(orders) + ['slow motion (sleeping no-op mutator)'])
     json.dump(res, open(res_path, 'w'))
-    log('c07: %d re-executions in %d processes, %d differ, %.1fs' % (nruns, len(orders), len(props), time.time() - t0))
+    log('c07: %d re-executions in %d processes + 4 slow-motion pairs, %d differ, %.1fs' % (nruns, len(orders), len(props), time.time() - t0))
     return res
 
 
